@@ -212,3 +212,56 @@ func (s *Sweep) SkippedList() []string {
 	}
 	return out
 }
+
+// Serialise calls the value's own serialiser again (Bytes, else Data) by
+// reflection. ok=false when the value has no such method or it has another shape.
+func Serialise(v any) (b []byte, err error, ok bool) {
+	rv := reflect.ValueOf(v)
+	if !rv.IsValid() {
+		return nil, nil, false
+	}
+	if rv.Kind() != reflect.Ptr {
+		p := reflect.New(rv.Type())
+		p.Elem().Set(rv)
+		rv = p
+	} else if rv.IsNil() {
+		return nil, nil, false
+	}
+	for _, name := range []string{"Bytes", "Data"} {
+		m := rv.MethodByName(name)
+		if !m.IsValid() || m.Type().NumIn() != 0 || m.Type().NumOut() < 1 || m.Type().NumOut() > 2 {
+			continue
+		}
+		var out []reflect.Value
+		func() {
+			defer func() {
+				if x := recover(); x != nil {
+					err = fmt.Errorf("panic: %v", x)
+				}
+			}()
+			out = m.Call(nil)
+		}()
+		if err != nil {
+			return nil, err, true
+		}
+		o := out[0]
+		switch {
+		case o.Kind() == reflect.Slice && o.Type().Elem().Kind() == reflect.Uint8:
+			b = append([]byte{}, o.Bytes()...)
+		case o.Kind() == reflect.Array && o.Type().Elem().Kind() == reflect.Uint8:
+			b = make([]byte, o.Len())
+			for i := range b {
+				b[i] = byte(o.Index(i).Uint())
+			}
+		default:
+			continue
+		}
+		if len(out) == 2 {
+			if e, isErr := out[1].Interface().(error); isErr && e != nil {
+				err = e
+			}
+		}
+		return b, err, true
+	}
+	return nil, nil, false
+}
